@@ -317,11 +317,60 @@ func (r *rewriter) rewriteForRange(pkg loader.Pkg, fr *ast.RangeStmt) *ast.ForSt
 
 	init := X.Define(iter, fr.X)
 	cond := X.Call(next)
+	stmts := fr.Body.List
+	if fr.Tok == token.DEFINE && declaresAtTop(stmts, fr.Key) {
+		// for v := range it { v := ... }: the loop variable and the body's own
+		// declaration would end up in one block, keep the body in its own scope
+		stmts = []ast.Stmt{X.Block(stmts...)}
+	}
 	body := X.Block1(
 		X.Assign(fr.Tok, fr.Key, X.Call(current)),
-		fr.Body.List...,
+		stmts...,
 	)
 	return X.ForStmt(init, cond, nil, body)
+}
+
+// declaresAtTop reports whether one of the statements declares, in their own
+// block scope, a name equal to the identifier key.
+func declaresAtTop(stmts []ast.Stmt, key ast.Expr) bool {
+	id, ok := key.(*ast.Ident)
+	if !ok || id.Name == "_" {
+		return false
+	}
+	for _, stmt := range stmts {
+		switch stmt := stmt.(type) {
+		case *ast.AssignStmt:
+			if stmt.Tok == token.DEFINE {
+				for _, lhs := range stmt.Lhs {
+					if l, ok := lhs.(*ast.Ident); ok && l.Name == id.Name {
+						return true
+					}
+				}
+			}
+		case *ast.DeclStmt:
+			if decl, ok := stmt.Decl.(*ast.GenDecl); ok {
+				for _, spec := range decl.Specs {
+					switch spec := spec.(type) {
+					case *ast.ValueSpec:
+						for _, name := range spec.Names {
+							if name.Name == id.Name {
+								return true
+							}
+						}
+					case *ast.TypeSpec:
+						if spec.Name.Name == id.Name {
+							return true
+						}
+					}
+				}
+			}
+		case *ast.LabeledStmt:
+			if declaresAtTop([]ast.Stmt{stmt.Stmt}, key) {
+				return true
+			}
+		}
+	}
+	return false
 }
 
 // ↓↓↓↓↓↓↓↓↓↓↓↓↓↓↓↓↓↓↓↓↓↓ Rewrite co.Iter ↓↓↓↓↓↓↓↓↓↓↓↓↓↓↓↓↓↓↓↓↓↓
